@@ -251,7 +251,7 @@ pub fn vf_iter_any<T, F: FnMut(&T) -> bool>(v: &Vec<T>, f: F) -> (r: bool)
 { v.iter().any(f) }
 
 } // verus!
-}
+} // mod vf_prelude
 
 // ---- D6: crate `md5` stand-in: a function of its input returning 16 octets ---------------------
 pub mod md5 {
@@ -266,4 +266,4 @@ pub fn compute(data: &Vec<u8>) -> (r: Digest)
     ensures r@ == spec_md5(data@),
 { unimplemented!() }
 } // verus!
-}
+} // mod md5
